@@ -86,6 +86,35 @@ theorem error_examples :
     (lexAll c!"$\"a$b\"").2 = some (LexError.InvalidInterpolationStart (1, 5) 'b') := by
   decide
 
+/-- the hexadecimal digits are exactly `0-9`, `a-f`, `A-F`: nothing else has a value — not a sign, not a blank, not a
+    letter past `f` — so nothing else is accepted in either position of `\xHH` (`invalid_hex_step`) -/
+theorem hexVal_domain (c : Char) :
+    (hexVal c).isSome = true ↔
+      (48 ≤ c.toNat ∧ c.toNat ≤ 57) ∨ (97 ≤ c.toNat ∧ c.toNat ≤ 102) ∨ (65 ≤ c.toNat ∧ c.toNat ≤ 70) := by
+  unfold hexVal isAsciiDigit
+  have h0 : '0'.toNat = 48 := rfl
+  have h9 : '9'.toNat = 57 := rfl
+  have ha : 'a'.toNat = 97 := rfl
+  have hf : 'f'.toNat = 102 := rfl
+  have hA : 'A'.toNat = 65 := rfl
+  have hF : 'F'.toNat = 70 := rfl
+  simp only [h0, h9, ha, hf, hA, hF]
+  split <;> rename_i h1
+  · simp at h1 ⊢; omega
+  · split <;> rename_i h2
+    · simp at h1 h2 ⊢; omega
+    · split <;> rename_i h3
+      · simp at h1 h2 h3 ⊢; omega
+      · simp at h1 h2 h3 ⊢; omega
+
+/-- a sign is not a digit: `\x+9` and `\x9-` are rejected at the sign, in plain and interpolated literals -/
+theorem hex_sign_rejected :
+    (lexAll c!"\"é \\x+9\"").2 = some (LexError.InvalidHexChar (1, 6) '+') ∧
+    (lexAll c!"\"é \\x9-\"").2 = some (LexError.InvalidHexChar (1, 7) '-') ∧
+    (lexAll c!"$\"é \\x+9\"").2 = some (LexError.InvalidHexChar (1, 7) '+') ∧
+    (lexAll c!"\"\\x 9\"").2 = some (LexError.InvalidHexChar (1, 4) ' ') := by
+  decide
+
 /-! ## T1 — a literal denotes exactly its characters (`str_roundtrip`)
 
 `escapeChars`, `Seg` and the segment lemmas are in `Lemmas/C15Lex.lean`.  The scanner after a literal is the
